@@ -111,7 +111,12 @@ func (s *icStack) build(m Mode, run *icRun) (*parser.Builder, func()) {
 				return next()
 			}
 			if s.viaPlugin && s.plugMask>>(uint(ti+si+ei)%64)&1 == 1 {
-				pb.Install(func(b *parser.Builder) { b.UseStatementInterceptor(f) })
+				if i%2 == 0 {
+					pb.Install(func(b *parser.Builder) { b.UseStatementInterceptor(f) })
+				} else {
+					// a plugin that installs another plugin
+					pb.Install(func(b *parser.Builder) { b.Install(func(b2 *parser.Builder) { b2.UseStatementInterceptor(f) }) })
+				}
 			} else {
 				pb.UseStatementInterceptor(f)
 			}
@@ -141,7 +146,11 @@ func (s *icStack) build(m Mode, run *icRun) (*parser.Builder, func()) {
 				return res
 			}
 			if s.viaPlugin && s.plugMask>>(uint(ti+si+ei)%64)&1 == 1 {
-				pb.Install(func(b *parser.Builder) { b.UseExpressionInterceptor(f) })
+				if i%2 == 0 {
+					pb.Install(func(b *parser.Builder) { b.UseExpressionInterceptor(f) })
+				} else {
+					pb.Install(func(b *parser.Builder) { b.Install(func(b2 *parser.Builder) { b2.UseExpressionInterceptor(f) }) })
+				}
 			} else {
 				pb.UseExpressionInterceptor(f)
 			}
